@@ -7,7 +7,8 @@ EXTENDS Integers, Sequences, FiniteSets, TLC
 CONSTANTS Sw, Inv,        \* switches; Inv[sw] = TRUE for normally-closed switches
           Hid, Hold,      \* handler ids, hold times (units; 0 = untimed)
           HeldSw, HeldMs, \* one switch has a configured timed event "held" after HeldMs units active
-          MaxTime, MaxOps, LongAgo
+          MaxTime, MaxOps, LongAgo,
+          Lax             \* tolerance (time units) of recorded times: 0 for model checking and the driver's unit-grid traces
 VARIABLES now, st, hw, last,   \* logical state, raw state, time of last change per switch
           reg,        \* registered handlers: set of [id, sw, state, ms]
           timed,      \* pending timed entries: set of [id, sw, due]
@@ -21,7 +22,7 @@ Init == /\ now = 0 /\ st = [s \in Sw |-> IF Inv[s] THEN 1 ELSE 0] /\ hw = [s \in
         /\ last = [s \in Sw |-> LongAgo] /\ reg = {} /\ timed = {} /\ pcall = {} /\ incall = FALSE /\ pev = {}
         /\ nops = 0 /\ act = [op |-> "init"]
 Ids(S) == {h.id : h \in S}
-Overdue == \E e \in timed : e.due <= now
+Overdue == \E e \in timed : e.due + Lax <= now
 \* a top-level call arrives between loop iterations; a nested one from inside a handler callback
 CallOK(nested) == /\ nops < MaxOps /\ (IF nested THEN incall ELSE ~incall /\ ~Overdue /\ pev = {})
 Logical(s, v, logical) == IF Inv[s] /\ ~logical THEN 1 - v ELSE v
@@ -69,7 +70,7 @@ RemoveHandler(id, nested) ==
 \* a timed handler's deadline has come and the switch never changed in between
 \* (its callback may remove another handler - rm - on the spot: that one must not fire any more, even if it was due now too)
 TFire(id, rm) == /\ ~incall /\ rm # id /\ (rm = "" \/ rm \in Ids(reg))
-                 /\ \E e \in timed : e.id = id /\ e.due = now /\ timed' = {x \in timed \ {e} : x.id # rm}
+                 /\ \E e \in timed : e.id = id /\ e.due \in (now - Lax)..(now + Lax) /\ timed' = {x \in timed \ {e} : x.id # rm}
                  /\ reg' = {h \in reg : h.id # rm}
                  /\ UNCHANGED <<now, st, hw, last, pcall, incall, pev, nops>>
                  /\ act' = [op |-> "tfire", id |-> id, t |-> now, rm |-> rm]
